@@ -946,7 +946,7 @@ Lemma column_eqb_refl x : column_eqb x x = true.
 Proof. unfold column_eqb. rewrite ident_eqb_refl, tytok_eqb_refl, obool_eqb_refl, !bool_eqb_refl, !ostr_eqb_refl.
   rewrite option_eqb_refl by apply sdefault_eqb_refl. reflexivity. Qed.
 Lemma refcol_eqb_refl r : refcol_eqb r r = true.
-Proof. unfold refcol_eqb. rewrite str_eqb_refl, ostr_eqb_refl. reflexivity. Qed.
+Proof. unfold refcol_eqb. rewrite strs_eqb_refl, ostr_eqb_refl. reflexivity. Qed.
 Lemma tcons_eqb_refl k : tcons_eqb k k = true.
 Proof. destruct k; cbn; rewrite ?(list_eqb_refl refcol_eqb) by apply refcol_eqb_refl; rewrite ?idents_eqb_refl, ?strs_eqb_refl, ?cname_eqb_refl, ?ostr_eqb_refl, ?obool_eqb_refl, ?bool_eqb_refl, ?str_eqb_refl; reflexivity. Qed.
 Lemma table_eqb_refl t : table_eqb t t = true.
@@ -981,11 +981,44 @@ Proof. unfold check_C08, C08_holds. destruct (o_parsed o) as [st|] eqn:E; [|disc
 Theorem decider_complete i o : C08_holds i o -> check_C08 i o = true.
 Proof. unfold check_C08, C08_holds. intros [[st E] [H1 [H2 H3]]]. rewrite E, H1, H2, H3. reflexivity. Qed.
 
+(* the imports: reading the rendered text back uses exactly the dialect modules that the rendering collected *)
+Lemma flat_map_map {A B C} (f:B -> list C) (g:A -> B) l : flat_map f (map g l) = flat_map (fun x => f (g x)) l.
+Proof. induction l as [|x l IH]; [reflexivity|]. cbn. rewrite IH. reflexivity. Qed.
+Lemma nk_tbl_op_dialects o : tbl_op_dialects (nk_tbl_op o) = tbl_op_dialects o.
+Proof. destruct o; reflexivity. Qed.
+Lemma nk_top_dialects o : top_dialects (nk_top o) = top_dialects o.
+Proof.
+  destruct o as [t| |sql|n s ie ty|tn s o|tn s l]; cbn [nk_top top_dialects t_cols]; try reflexivity.
+  - rewrite flat_map_map. reflexivity.
+  - apply nk_tbl_op_dialects.
+  - rewrite flat_map_map. apply flat_map_ext. intros m. unfold nk_member. cbn [snd]. apply nk_tbl_op_dialects.
+Qed.
+Lemma expected_top_dialects c o : dialects_of (expected_top c o) = top_dialects o.
+Proof.
+  unfold expected_top. rewrite <- (nk_top_dialects o). destruct (nk_top o) as [t| |sql|n s ie ty|tn s o'|tn s l]; unfold dialects_of;
+    try (cbn [flat_map]; apply app_nil_r).
+  destruct l as [|m l]; [reflexivity|]. destruct (cfg_batch c); [cbn [flat_map]; apply app_nil_r|].
+  rewrite flat_map_map. reflexivity.
+Qed.
+Lemma expected_dialects c ops : dialects_of (expected c ops) = dialects_of ops.
+Proof.
+  unfold expected. induction ops as [|o ops IH]; [reflexivity|]. cbn [flat_map]. unfold dialects_of in *. rewrite flat_map_app, IH.
+  cbn [flat_map]. f_equal. apply expected_top_dialects.
+Qed.
+Lemma memb_self l : forallb (fun d => memb d l) l = true.
+Proof. apply forallb_forall. intros x Hx. unfold memb. apply existsb_exists. exists x. split; [exact Hx|apply str_eqb_refl]. Qed.
+
+Theorem eval_in_render c ops : canonical (c, ops) = true ->
+  eval_in c (render_imports ops) (render_ops c ops) = Some (expected c ops).
+Proof.
+  intros H. unfold eval_in. rewrite (eval_render c ops H), expected_dialects. unfold render_imports. rewrite memb_self. reflexivity.
+Qed.
+
 Theorem model_holds i : inclass_C08 i = true -> C08_holds i (model_C08 i).
 Proof.
   destruct i as [c ops]. unfold inclass_C08. intros H. apply andb_true_iff in H. destruct H as [H _]. apply andb_true_iff in H. destruct H as [H F].
-  unfold C08_holds, model_C08, exec_names_ok. cbn [o_parsed o_sql_same o_exec fst snd] in *. split; [eexists; reflexivity|].
-  unfold reads_back. cbn [o_parsed fst snd]. rewrite (eval_render c ops H). split; [rewrite ops_eqb_refl, F; reflexivity|]. split.
+  unfold C08_holds, model_C08, exec_names_ok. cbn [o_parsed o_sql_same o_exec o_imports fst snd] in *. split; [eexists; reflexivity|].
+  unfold reads_back. cbn [o_parsed o_imports fst snd]. rewrite (eval_in_render c ops H). split; [rewrite ops_eqb_refl, F; reflexivity|]. split.
   - unfold names_agree. apply list_eqb_refl. intros x. unfold key_eqb. rewrite N.eqb_refl, str_eqb_refl. reflexivity.
   - rewrite ops_eqb_refl. apply orb_true_r.
 Qed.
